@@ -27,7 +27,29 @@ def load_matrix():
     sys.path.insert(0, os.path.join(VERIF, 'selftest'))
     import matrix
     importlib.reload(matrix)
-    return list(matrix.MUTANTS) + load_seeds()
+    return list(matrix.MUTANTS) + load_seeds() + load_refactors()
+
+
+def load_refactors():
+    """The independently written behaviour-preserving refactorings of /verif/refactors
+    as additional silent entries: no check may change its verdict on any of them."""
+    out = []
+    rd = os.path.join(VERIF, 'refactors')
+    if not os.path.isdir(rd):
+        return out
+    props = ['C%02d' % i for i in range(1, 21)]
+    for name in sorted(os.listdir(rd)):
+        pp = os.path.join(rd, name, 'patch.diff')
+        if not os.path.exists(pp):
+            continue
+        what = ''
+        mp = os.path.join(rd, name, 'meta.json')
+        if os.path.exists(mp):
+            with open(mp) as fh:
+                what = json.load(fh).get('change', '')
+        out.append({'id': 'refactor-' + name, 'kind': 'silent', 'props': props, 'fire': {},
+                    'edits': [], 'patch': pp, 'what': what})
+    return out
 
 
 def load_seeds():
@@ -69,6 +91,10 @@ def make_scratch(repo, edits, patch=None):
         if r.returncode:
             shutil.rmtree(d, ignore_errors=True)
             return None, 'patch does not apply: %s' % (r.stdout + r.stderr).strip()[:200]
+        for root, _, files in os.walk(d):
+            for f in files:
+                if f.endswith(('.orig', '.rej')):
+                    os.remove(os.path.join(root, f))
     for rel, old, new in edits:
         p = os.path.join(d, rel)
         if not os.path.exists(p):
